@@ -465,8 +465,12 @@ impl<'ast> FromMainline<'ast, NickelValue> for Ast<'ast> {
             ValueContentRef::Label(_)
             | ValueContentRef::CustomContract(_)
             | ValueContentRef::ForeignId(_)
-            | ValueContentRef::SealingKey(_)
-            | ValueContentRef::Thunk(_) => unimplemented!(),
+            | ValueContentRef::SealingKey(_) => unimplemented!(),
+            // A thunk (typically the field of an evaluated record, as when the REPL loads a file)
+            // is converted as the expression it currently holds.
+            ValueContentRef::Thunk(thunk) => {
+                return thunk.borrow().value.to_ast(alloc, pos_table);
+            }
         };
 
         Ast {
